@@ -149,7 +149,7 @@ def _mconfs(listnoise=False, rm=True):
         out.append({'method': 'euclidean', 'rm': r})
     for r in rms:
         out.append({'method': 'correlation', 'rm': r})
-    for prec in ['none', 'eye', 'diag', 'full'] + (['perds'] if listnoise else []):
+    for prec in ['none', 'eye', 'diag', 'full'] + (['perds', 'perdsdict'] if listnoise else []):
         for r in rms:
             out.append({'method': 'mahalanobis', 'prec': prec, 'rm': r})
     for prior in ([1, 0.1], [2, 0.5]):
@@ -363,8 +363,9 @@ def _check_untouched(ctx, case, op, cls, before, datasets, **arrays):
 
 def _acls(op, form, case, mconf):
     """configuration class for argument findings: the value class of the judge"""
-    cls = _mtag(mconf) if op == 'calc_rdm_movie' else '%s,%s' % (form.split('(')[0], _mtag(mconf))
-    return cls
+    if op == 'calc_rdm_movie':
+        return ('list-input,' if form.startswith('list-input') else '') + _mtag(mconf)
+    return '%s,%s' % (form.split('(')[0], _mtag(mconf))
 
 
 # ----------------------------------------------------------------------------- the oracle
@@ -402,7 +403,9 @@ def _judge(ctx, case, op, form, mconf, rdms, models, keymode, r_to_model=None):
     vcls = '%s,%s' % (form.split('(')[0], _mtag(mconf))
     if op == 'calc_rdm_movie':
         scls, vcls = form, _mtag(mconf)
-        if AXIS_CLASS.get(case.get('taxis')):
+        if form.startswith('list-input'):
+            vcls = 'list-input,' + vcls
+        elif AXIS_CLASS.get(case.get('taxis')):
             vcls += ',time-axis=' + AXIS_CLASS[case['taxis']]
     if case.get('scale') or case.get('nscale'):
         vcls += ',scaled'
@@ -643,9 +646,11 @@ def _noise_for_list(case, n_ch, seed, n_ds):
     """-> (noise argument for the library, list of per-dataset precisions for the reference)"""
     if case['method'] != 'mahalanobis':
         return None, [None] * n_ds
-    if case['prec'] == 'perds':
+    if case['prec'] in ('perds', 'perdsdict'):
         precs = [_precision('full' if w % 2 == 0 else 'diag', n_ch, seed, which=w + 1,
                             nscale=case.get('nscale')) for w in range(n_ds)]
+        if case['prec'] == 'perdsdict':      # a dict keyed by the position of the dataset in the list
+            return {w: p.copy() for w, p in enumerate(precs)}, precs
         return [p.copy() for p in precs], precs
     prec = _precision(case['prec'], n_ch, seed, nscale=case.get('nscale'))
     return (None if prec is None else prec.copy()), [prec] * n_ds
@@ -916,6 +921,161 @@ def _run_sequence(case, ctx):
         ctx.case(dict(case, step=si), nontrivial=judged > 0)
 
 
+# ----------------------------------------------------------------------------- movies of lists / unbalanced
+def _run_movielist(case, ctx):
+    """calc_rdm_movie on a LIST of 1-2 TemporalDatasets (same conditions): every frame of every
+    dataset against the per-time-point formula, identified by the returned subj and time labels"""
+    from rsatoolbox.data import TemporalDataset
+    from rsatoolbox.rdm import calc_rdm_movie
+    n, n_ch, nt, nds = case['n'], case['P'], case['nt'], case['nds']
+    poisson = case['method'] == 'poisson'
+    names = _naming(max(case['part']) + 1, case['naming'])
+    labels = [names[g] for g in case['part']]
+    desc = case['desc']
+    tname = case.get('tname', 'time')
+    times = _time_axis(case.get('taxis', 'small'), nt, case['torder'])
+    alt = [10.0 * t + 5.0 for t in times]
+    tused = times if tname == 'time' else alt
+    groups = case['bins'] if case['bins'] is not None else [[t] for t in range(nt)]
+    noise, precs = _noise_for_list(case, n_ch, ctx.seed, nds)
+    dss, models = [], []
+    for which in range(nds):
+        data = _fill(ctx.seed, (n, n_ch, nt), 'float', case['fill'], poisson, key=which + 1)
+        order = list(range(n))
+        if which == 1 and case.get('perm2') == 'rev':
+            order = order[::-1]
+        data_o = [data[o] for o in order]
+        labs = [labels[o] for o in order]
+        extra = [_extra_of(lab) for lab in labs] if case['extra'] == 'const' else None
+        obs = {'cond': _mk(labs, case['container'])}
+        if extra is not None:
+            obs['extra'] = _mk(extra, case['container'])
+        tdesc = {'time': np.array(times)}
+        if tname != 'time':
+            tdesc[tname] = np.array(alt)
+        dss.append(TemporalDataset(np.array(data_o, dtype=float), descriptors={'subj': 's%d' % (which + 1), 'sess': 3},
+                                   obs_descriptors=obs, time_descriptors=tdesc))
+        opts = _ref_opts(dict(case, rm=False), precs[which])
+        for grp in groups:
+            models.append({'rows': ref.time_slice(data_o, grp), 'labels': labs, 'extra': extra,
+                           'keys': labs if desc else list(range(n)), 'subj': 's%d' % (which + 1), 'sess': 3,
+                           'time': ref.bin_time_value(tused, grp), 'opts': opts})
+    bins = None if case['bins'] is None else [np.array([tused[t] for t in grp]) for grp in case['bins']]
+    mm = dict(case, rm=False)
+    kw = _lib_kwargs(mm, noise, with_rm=False)
+    cls = 'list-input' + (',time_descriptor=other' if tname != 'time' else (',bins' if bins is not None else ''))
+    snap = _snapshot(dss, noise=noise, bins=bins)
+    ok, rdms = _call(ctx, 'calc_rdm_movie', cls, case,
+                     lambda: calc_rdm_movie(dss, descriptor=desc, time_descriptor=tname, bins=bins, **kw))
+    _check_untouched(ctx, case, 'calc_rdm_movie', _acls('calc_rdm_movie', cls, case, mm), snap, dss,
+                     noise=noise, bins=bins)
+    judged = 0
+    if ok:
+        tvals = rdms.rdm_descriptors.get(tname)
+        if rdms.n_rdm != len(models):
+            ctx.fail('calc_rdm_movie|%s|n-rdm' % cls, case, '%d RDMs for %d datasets x %d (binned) time points' % (
+                rdms.n_rdm, nds, len(groups)))
+        elif tvals is None:
+            ctx.fail('calc_rdm_movie|%s|rdm-time-label' % cls, case,
+                     'no rdm descriptor %r for the time points (rdm_descriptors: %r)' % (
+                         tname, sorted(rdms.rdm_descriptors)))
+        else:
+            r_to_model = []
+            for r in range(rdms.n_rdm):
+                oks, subj = _desc_value(rdms, 'subj', r)
+                hit = [i for i, m in enumerate(models) if _same_time(tvals[r], m['time']) and
+                       (nds == 1 or (oks and ref.find_label(subj, [m['subj']]) is not None))]
+                r_to_model.append(hit[0] if len(hit) == 1 else None)
+            if None in r_to_model or sorted(r_to_model) != list(range(len(models))):
+                ctx.fail('calc_rdm_movie|%s|rdm-time-label' % cls, case,
+                         'the (subj, time) labels of the RDMs %r are not the datasets x (binned) time points %r' % (
+                             [(_desc_value(rdms, 'subj', r)[1], tvals[r]) for r in range(rdms.n_rdm)],
+                             [(m['subj'], m['time']) for m in models]))
+            else:
+                judged = _judge(ctx, case, 'calc_rdm_movie', cls, mm, rdms, models,
+                                'label' if desc else 'position', r_to_model=r_to_model)
+    ctx.case(case, nontrivial=judged > 0)
+
+
+def _run_movieunb(case, ctx):
+    """calc_rdm_movie(unbalanced=True) == stack of calc_rdm_unbalanced at each (binned) time point.
+    The per-frame estimator itself belongs to another property; here only the stacking is judged:
+    frame with time label t must equal calc_rdm_unbalanced of the data (bin mean) at t."""
+    from rsatoolbox.data import Dataset, TemporalDataset
+    from rsatoolbox.rdm import calc_rdm_movie, calc_rdm_unbalanced
+    n, n_ch, nt = case['n'], case['P'], case['nt']
+    poisson = case['method'] == 'poisson'
+    names = _naming(max(case['part']) + 1, case['naming'])
+    labels = [names[g] for g in case['part']]
+    desc = case['desc']
+    data = _fill(ctx.seed, (n, n_ch, nt), 'float', case['fill'], poisson)
+    times = _time_axis(case.get('taxis', 'small'), nt, case['torder'])
+    groups = case['bins'] if case['bins'] is not None else [[t] for t in range(nt)]
+    prec = _precision(case.get('prec', 'none'), n_ch, ctx.seed) if case['method'] == 'mahalanobis' else None
+    tds = TemporalDataset(np.array(data, dtype=float), descriptors={'subj': 's1', 'sess': 3},
+                          obs_descriptors={'cond': _mk(labels, case['container'])},
+                          time_descriptors={'time': np.array(times)})
+    bins = None if case['bins'] is None else [np.array([times[t] for t in grp]) for grp in case['bins']]
+    mm = dict(case, rm=False)
+    noise = None if prec is None else prec.copy()
+    kw = _lib_kwargs(mm, noise, with_rm=False)
+    snap = _snapshot([tds], noise=noise, bins=bins)
+    ucls = 'unbalanced,list-input' if case.get('aslist') else 'unbalanced'
+    arg = [tds] if case.get('aslist') else tds
+    ok, rdms = _call(ctx, 'calc_rdm_movie', ucls, case,
+                     lambda: calc_rdm_movie(arg, descriptor=desc, bins=bins, unbalanced=True, **kw))
+    _check_untouched(ctx, case, 'calc_rdm_movie', ucls + ',' + _mtag(mm), snap, [tds], noise=noise, bins=bins)
+    judged = 0
+    if ok:
+        tvals = rdms.rdm_descriptors.get('time')
+        got_labels = list(rdms.pattern_descriptors['cond']) if desc else list(range(rdms.n_cond))
+        if rdms.n_rdm != len(groups) or tvals is None:
+            ctx.fail('calc_rdm_movie|%s|' % ucls + 'n-rdm', case, '%d RDMs for %d (binned) time points' % (
+                rdms.n_rdm, len(groups)))
+        else:
+            for grp in groups:
+                want_t = ref.bin_time_value(times, grp)
+                hit = [r for r in range(rdms.n_rdm) if _same_time(tvals[r], want_t)]
+                if len(hit) != 1:
+                    ctx.fail('calc_rdm_movie|%s|' % ucls + 'rdm-time-label', case,
+                             'time labels %r, expected one frame at %r' % (list(tvals), want_t))
+                    continue
+                frame = Dataset(np.array(ref.time_slice(data, grp), dtype=float),
+                                obs_descriptors={'cond': _mk(labels, case['container'])})
+                kwf = _lib_kwargs(mm, None if prec is None else prec.copy(), with_rm=False)
+                okf, exp = _call(ctx, 'calc_rdm_unbalanced', 'per-frame reference call', case,
+                                 lambda: calc_rdm_unbalanced(frame, descriptor=desc, **kwf))
+                if not okf:
+                    continue
+                exp_labels = list(exp.pattern_descriptors['cond']) if desc else list(range(exp.n_cond))
+                if exp.n_cond != rdms.n_cond:
+                    ctx.fail('calc_rdm_movie|%s|' % ucls + 'n-cond', case, '%d conditions, per-frame call has %d' % (
+                        rdms.n_cond, exp.n_cond))
+                    continue
+                where = [ref.find_label(lab, exp_labels) for lab in got_labels]
+                nc = rdms.n_cond
+                for i in range(nc):
+                    for j in range(i + 1, nc):
+                        g = rdms.dissimilarities[hit[0], ref.vector_position(i, j, nc)]
+                        if where[i] is None or where[j] is None:
+                            ctx.fail('calc_rdm_movie|%s|' % ucls + 'labels', case, 'labels %r vs per-frame %r' % (
+                                got_labels, exp_labels))
+                            continue
+                        w = exp.dissimilarities[0, ref.vector_position(where[i], where[j], nc)]
+                        judged += 1
+                        if not close(g, w, TOL):
+                            ctx.fail('calc_rdm_movie|%s,%s|frame-differs-from-per-time-point-RDM' % (ucls, _mtag(mm)),
+                                     case, 'frame at time %r, pair (%r,%r): movie %.12g, calc_rdm_unbalanced of that '
+                                     'time point %.12g' % (want_t, got_labels[i], got_labels[j], g, w))
+            for name in ('subj', 'sess'):
+                for r in range(rdms.n_rdm):
+                    okd, val = _desc_value(rdms, name, r)
+                    if not okd or not bool(val == {'subj': 's1', 'sess': 3}[name]):
+                        ctx.fail('calc_rdm_movie|%s|' % ucls + 'rdm-descriptor-%s' % ('wrong' if okd else 'missing'), case,
+                                 'dataset descriptor %r on RDM %d: %r' % (name, r, val))
+    ctx.case(case, nontrivial=judged > 0)
+
+
 # ----------------------------------------------------------------------------- dispatch
 def run_case(case, ctx):
     kind = case['kind']
@@ -929,6 +1089,10 @@ def run_case(case, ctx):
         _run_movie(case, ctx)
     elif kind == 'sequence':
         _run_sequence(case, ctx)
+    elif kind == 'movielist':
+        _run_movielist(case, ctx)
+    elif kind == 'movieunb':
+        _run_movieunb(case, ctx)
     else:
         raise ValueError(kind)
 
@@ -1033,6 +1197,12 @@ def shards(tier, seed):
     for taxis in AXIS_ORDER:
         for torder in ('asc', 'desc', 'scr'):
             out.append({'kind': 'taxis', 'taxis': taxis, 'torder': torder})
+    # F3: movies of LISTS of temporal datasets (every option of the list branch) and unbalanced movies
+    for nds in (1, 2):
+        for nt in range(1, 5 if th else 4):
+            out.append({'kind': 'movielist', 'nds': nds, 'nt': nt})
+    for nt in range(1, 4 if th else 3):
+        out.append({'kind': 'movieunb', 'nt': nt})
     # H: data and precision scales far from one (relative tolerances)
     for scale, nscale in ((1e-5, None), (1e4, None), (None, 1e-8), (None, 1e6), (1e-5, 1e6), (1e4, 1e-8)):
         for n_ch in (1, 2, 3):
@@ -1216,6 +1386,49 @@ def run_shard(shard, ctx):
                         run_case(dict(base, desc='cond', **mconf), ctx)
                         if th or mi == idx % 4:
                             run_case(dict(base, desc=None, **mconf), ctx)
+    elif kind == 'movielist':
+        nds, nt = shard['nds'], shard['nt']
+        mconfs = _mconfs(listnoise=True, rm=False)
+        idx = 0
+        for bins in _time_configs(nt):
+            for n in ((1, 2, 3, 4) if th else (1, 2, 3)):
+                for part in _partitions(n):
+                    idx += 1
+                    n_ch = (2, 3, 1, 3, 2)[idx % 5]
+                    base = {'kind': 'movielist', 'nds': nds, 'n': n, 'P': n_ch, 'nt': nt,
+                            'torder': ('asc', 'desc', 'scr')[idx % 3] if nt > 1 else 'asc',
+                            'taxis': AXIS_ORDER[idx % len(AXIS_ORDER)], 'bins': bins, 'part': part,
+                            'naming': ('desc', 'str', 'asc', 'big', 'prefix')[idx % 5],
+                            'container': 'list' if idx % 2 else 'nd', 'extra': 'const' if idx % 3 else 'none',
+                            'fill': 0}
+                    for mi, mconf in enumerate(mconfs):
+                        if mconf['method'] == 'correlation' and n_ch < 2:
+                            continue
+                        run_case(dict(base, desc='cond', perm2='rev' if (idx + mi) % 2 else 'id', **mconf), ctx)
+                        if th or (mi + idx) % 3 == 0:
+                            run_case(dict(base, desc=None, perm2='id', **mconf), ctx)
+                    # a time descriptor other than 'time' selected by name
+                    if bins is None or idx % 4 == 0:
+                        run_case(dict(base, desc='cond', perm2='id', tname='tms', method='euclidean', rm=False), ctx)
+    elif kind == 'movieunb':
+        nt = shard['nt']
+        mconfs = _mconfs(rm=False)
+        idx = 0
+        for bins in _time_configs(nt):
+            for n in (1, 2, 3):
+                for part in _partitions(n):
+                    idx += 1
+                    n_ch = (2, 3)[idx % 2]
+                    base = {'kind': 'movieunb', 'n': n, 'P': n_ch, 'nt': nt, 'torder': 'asc' if idx % 2 else 'desc',
+                            'taxis': AXIS_ORDER[idx % len(AXIS_ORDER)], 'bins': bins, 'part': part,
+                            'naming': ('desc', 'str', 'asc')[idx % 3], 'container': 'list' if idx % 2 else 'nd',
+                            'fill': 0}
+                    for mi, mconf in enumerate(mconfs):
+                        run_case(dict(base, desc='cond', **mconf), ctx)
+                        if th or (mi + idx) % 3 == 0:
+                            run_case(dict(base, desc=None, **mconf), ctx)
+                        if th or (mi + idx) % 3 == 1:
+                            run_case(dict(base, desc='cond', aslist=True, **mconf), ctx)
     elif kind == 'scale':
         n_ch = shard['P']
         sc = {k: shard[k] for k in ('scale', 'nscale') if shard[k]}
